@@ -10,6 +10,10 @@
      omitted      { f }                                   (no argument; nothing to coerce)
      objvar       { f(arg: {y: 0, x: $w}) }  with $w: Int supplied (value) or not supplied (absent) - In-typed args only
      nullvar      query($v: Int) { g(arg: $v) }  for  g(arg: Int! = 3), variables = {v: null}: null must not reach a non-null arg
+     argdef-nullvar / argdef-novar   query($v: Int) { g2(arg: $v) }  for  g2(arg: Int = 3): an explicit null variable gives null,
+                  a variable without runtime value gives the argument default
+     pertype      { items { x } }  items: [I] of concrete types T1, T2 declaring x(arg: Int = 1) and x(arg: Int = 2): every
+                  resolver receives the default of ITS OWN field definition (no carry-over inside one request)
    Expected result: [ok |-> TRUE, v |-> PyValue] (what the resolver must receive), [ok |-> FALSE] (rejected before any
    resolver runs) or v.k = "dontcare" (scalar-to-scalar leniency the specification leaves to the implementation:
    reported, not judged - DESIGN Appendix B.9).
@@ -80,16 +84,17 @@ Coerce(t, val) ==
   ELSE \* In
      IF val.k = "obj" THEN CoerceFields(val) ELSE Bad
 
-Routes == {"literal", "variable", "vardefault", "omitted", "objvar-given", "objvar-absent", "nullvar"}
+Routes == {"literal", "variable", "vardefault", "omitted", "objvar-given", "objvar-absent", "nullvar", "argdef-nullvar", "argdef-novar", "pertype"}
 VARIABLES ty, val, route
 vars == <<ty, val, route>>
 Init == /\ route \in Routes
         /\ ty \in (IF route \in {"objvar-given", "objvar-absent"} THEN {Named("In"), NN(Named("In"))}
                    ELSE IF route = "nullvar" THEN {NN(Named("Int"))}
+                   ELSE IF route \in {"argdef-nullvar", "argdef-novar", "pertype"} THEN {Named("Int")}
                    ELSE IF route = "omitted" THEN {t \in Types : t.k # "nn"}
                    ELSE Types)
         /\ val \in (IF route \in {"objvar-given"} THEN {w \in Scalars : w.k \in {"int", "null"}}
-                    ELSE IF route \in {"objvar-absent", "nullvar", "omitted"} THEN {[k |-> "null"]}
+                    ELSE IF route \in {"objvar-absent", "nullvar", "omitted", "argdef-nullvar", "argdef-novar", "pertype"} THEN {[k |-> "null"]}
                     ELSE Values)
 Next == FALSE /\ UNCHANGED vars
 Spec == Init /\ [][Next]_vars
@@ -100,6 +105,9 @@ Expected ==
     [] route = "objvar-given" -> Coerce(ty, Obj(<<Y0, [key |-> "x", val |-> val]>>))
     [] route = "objvar-absent" -> Coerce(ty, Obj(<<Y0>>))                  \* the field's default (3) is used
     [] route = "nullvar" -> Bad                                            \* null for a non-null argument is rejected
+    [] route = "argdef-nullvar" -> Ok([k |-> "null"])
+    [] route = "argdef-novar" -> Ok([k |-> "int", v |-> "3"])
+    [] route = "pertype" -> Ok([k |-> "list", vs |-> <<[k |-> "int", v |-> "1"], [k |-> "int", v |-> "2"], [k |-> "int", v |-> "1"]>>])
 Out == PrintT("COE " \o ToJson([ty |-> ty, val |-> val, route |-> route, r |-> Expected]))
 
 \* ---- R1: laws of the reference ----------------------------------------------------------------------------------
